@@ -192,6 +192,10 @@ func c07Scenario(p c07Params) *explore.Scenario {
 			vx.Observe("ev", "close-ret")
 		case "eof":
 			vc.EOF()
+		case "error-eof":
+			// how servers really end a session: an ERROR line, then they close
+			vc.SendLines("ERROR :Closing Link: me[host.example] (Quit: bye)")
+			vc.EOF()
 		case "readerr":
 			vc.FailRead(vx.ErrInjected)
 		case "writeerr":
@@ -378,7 +382,11 @@ func c07ReconnectScenario(p c07RecParams) *explore.Scenario {
 				x.Preload(fmt.Sprintf(":irc.example 001 me%d :Welcome me%d!ident@host.example\r\n", x.Idx, x.Idx))
 			}
 			if p.Tracking {
-				x.Preload(fmt.Sprintf(":me!ident@host.example JOIN #c%d\r\n", x.Idx))
+				nick := "me"
+				if p.Welcome == "changed" {
+					nick = fmt.Sprintf("me%d", x.Idx) // the name the welcome has just given the client
+				}
+				x.Preload(fmt.Sprintf(":%s!ident@host.example JOIN #c%d\r\n", nick, x.Idx))
 			}
 		}
 		doConnect("root")
@@ -398,7 +406,9 @@ func c07ReconnectScenario(p c07RecParams) *explore.Scenario {
 						others++
 					}
 				}
-				vx.Observe("ev", fmt.Sprintf("tracker conn=%d stale-channels=%d", k, others))
+				// ... and the reset happened when the connection was made, not later: what this connection has told since is there
+				own := st.GetChannel(fmt.Sprintf("#c%d", k-1)) != nil
+				vx.Observe("ev", fmt.Sprintf("tracker conn=%d own-channel=%v stale-channels=%d", k, own, others))
 			}
 			conns := env.Conns()
 			if len(conns) < k {
@@ -418,6 +428,9 @@ func c07ReconnectScenario(p c07RecParams) *explore.Scenario {
 			case "close":
 				c.Close()
 			case "eof":
+				vc.EOF()
+			case "error-eof":
+				vc.SendLines("ERROR :Closing Link: me[host.example] (Quit: bye)")
 				vc.EOF()
 			case "cancel":
 				ctxs[k-1]()
@@ -459,6 +472,9 @@ func c07ReconnectScenario(p c07RecParams) *explore.Scenario {
 			}
 			if strings.HasPrefix(r, "tracker ") && !strings.HasSuffix(r, "stale-channels=0") {
 				bad("tracker-not-reset", "the tracker still holds channels of a previous connection: "+r)
+			}
+			if strings.HasPrefix(r, "tracker ") && strings.Contains(r, "own-channel=false") {
+				bad("tracker-reset-late", "the channel this connection joined ten minutes ago is not tracked: the tracker was reset after the connection was made, not when: "+r)
 			}
 		}
 		for i, vc := range o.Conns {
@@ -557,6 +573,12 @@ func c07Jobs(tier string) []Job {
 		}
 		add(c07Params{Backlog: 3, Segs: "one", Mode: "gated", Cause: cs, Probe: true, Tracking: true, ChanCap: 2}, b2, 20)
 	}
+	// the server announces the end with an ERROR line before it closes
+	for _, bl := range []int{0, 1, 33} {
+		add(c07Params{Backlog: bl, Segs: "one", Mode: "gated", Cause: "error-eof"}, b1, 10+bl)
+	}
+	add(c07Params{Backlog: 1, Segs: "one", Mode: "idle", Cause: "error-eof", Probe: true, Tracking: true}, b2, 20)
+	add(c07Params{Backlog: 1, Segs: "one", Mode: "sending", Emit: 33, Stall: true, Cause: "error-eof"}, b1, 40)
 	// background handlers: Close called from one, and one that is still busy when the connection ends
 	for _, mode := range []string{"idle", "gated"} {
 		add(c07Params{Backlog: 2, Segs: "one", Mode: mode, Cause: "close-from-bg", ChanCap: 2}, b2, 20)
@@ -640,6 +662,7 @@ func c07Jobs(tier string) []Job {
 				}
 			}
 		}
+		jobs = append(jobs, ExploreJob("C07", ExploreSpec{Sc: c07ReconnectScenario(c07RecParams{Cause: "error-eof", From: from, Cycles: 3, Tracking: true, Welcome: "same", Backlog: 1}), Variants: []int{1, 2, 3}, Budgets: b1, Cache: true}, 30))
 		bs3 := b1
 		if thorough {
 			bs3 = b2
